@@ -24,7 +24,7 @@ var (
 	aU64  = []uint64{0, ^uint64(0), 0x0102030405060708, 1}
 	aTime = []uint32{1, 0xFFFFFFFF, 0x81020304, 0}
 	aTag  = []p9p.Tag{0x0102, 0xFFFF, 0, 1, 0xFFFE}
-	aStr  = []string{"", "a", "\xff\xfe\x00z", strings.Repeat("x", 300), strings.Repeat("y", 65535)}
+	aStr  = []string{"", "j\u00fcrgen \u20ac \U0001F600\x00\x00", "\xff\xfe\x00z", strings.Repeat("x", 300), strings.Repeat("y", 65535), "a"}
 )
 
 func pat(n int) []byte {
